@@ -136,10 +136,19 @@ impl Config {
                                     yaml::Yaml::String(s) => {
                                         let mut it = s.split('/');
                                         let ip =
-                                            it.next().unwrap().parse().map_err(|e| {
+                                            it.next().unwrap_or("").parse().map_err(|e| {
                                                 Error::InvalidConfig(format!("{}", e))
-                                            })?; /* TODO: remove unwrap */
-                                        let prefixlen = it.next().unwrap().parse().unwrap();
+                                            })?;
+                                        let prefixlen = it
+                                            .next()
+                                            .ok_or_else(|| {
+                                                Error::InvalidConfig(format!(
+                                                    "Expected IP prefix, but '{}'",
+                                                    s
+                                                ))
+                                            })?
+                                            .parse()
+                                            .map_err(|e| Error::InvalidConfig(format!("{}", e)))?;
                                         prefix = Some(
                                             erbium_net::Ipv4Subnet::new(ip, prefixlen).map_err(
                                                 |e| Error::InvalidConfig(format!("{}", e)),
